@@ -89,7 +89,7 @@ def lex(src: str):
             k = i + (1 if c == "b" else 0)
             # char literal or lifetime?
             if k + 1 < n and src[k + 1] == "\\":
-                j = k + 2
+                j = k + 3  # skip the escaped character itself (it may be a quote)
                 while j < n and src[j] != "'":
                     j += 1
                 j += 1
